@@ -154,3 +154,6 @@ TRAV_ASSUME = ["node filter is a fixed function during one operation", "maphash 
                "C03 liveness conclusions assume weak fairness"]
 for _p in ("C02", "C03", "C04"):
     PROPS[_p] = dict(engines=["traversal"], rule=TRAV_RULE, trusted=TRAV_TRUSTED, assumptions=TRAV_ASSUME)
+# the result set of a lookup IS the K-nearest container: C02 also runs the container's engine
+PROPS["C02"]["engines"] = ["traversal", "metric"]
+PROPS["C02"]["rule"] = TRAV_RULE + " ; metric engine: K-nearest push sequences with equal-id / equal-address / equal-distance ties (see C18)"
